@@ -12,6 +12,10 @@ structure St where
   clk : Int := 0
   kinds : List (Nat × Kind) := []
   live : Bool := false
+  /-- a `drain` started by the op list has not been reported by `dwait` yet; its virtual deadline; its outcome once it has returned -/
+  dact : Bool := false
+  ddl : Int := 0
+  dres : Option String := none
 
 def commaSep (xs : List String) : String := if xs.isEmpty then "-" else ",".intercalate xs
 
@@ -24,7 +28,8 @@ def showState (s : Svc) : String :=
   let hp := commaSep (s.heap.map (fun x => s!"{x.tp}:{x.id}"))
   let rc := commaSep ((sortBy (·.id) s.records).map (fun r => s!"{r.id}:{r.tp}:{bit r.canceled}"))
   let pr := commaSep ((sortBy (·.id) s.periodic).map (fun p => s!"{p.id}:{p.interval}:{p.next}:{bit p.canceled}"))
-  s!"heap={hp} rec={rc} per={pr} exec={s.executing} acc={bit s.accepting}"
+  let lf := match s.life with | .running => "R" | .draining => "D" | .stopped => "S"
+  s!"heap={hp} rec={rc} per={pr} exec={s.executing} acc={bit s.accepting} life={lf}"
 
 def parseKind (k : String) : Option Kind :=
   if k = "n" then some .normal
@@ -54,12 +59,28 @@ def runHandlers (st : St) : Nat → Svc → List String → Svc × List String
         let c := cancel r.1 j
         runHandlers st f (hend c.1) (ev1 ++ [s!"c{j}={bit c.2}", s!"e{h.id}"])
 
-def step (st : St) : List String → St × String
+/-- the drainer thread re-evaluates after every op (the harness forces a spurious wake-up there): predicate true ⇒ `drain` returns
+success; else deadline reached ⇒ it times out and runs the restore section; else it keeps waiting -/
+def settle (st : St) : St :=
+  if st.dact && st.dres.isNone && st.s.dpc == .waiting then
+    if drainPred st.s then { st with s := (drainDone st.s).1, dres := some "ok" }
+    else if st.clk ≥ st.ddl then { st with s := drainRestore (drainTimeout st.s), dres := some "timeout" }
+    else st
+  else st
+
+/-- an op's answer: `\x01` marks where the state is printed, AFTER the drainer has settled -/
+def finish (r : St × String) : St × String :=
+  if r.2 = "bad-op" || !r.1.live then r
+  else
+    let st := settle r.1
+    (st, r.2.replace "\x01" (showState st.s))
+
+def step0 (st : St) : List String → St × String
   | ["reset", a, b, c] =>
     match a.toNat?, b.toNat?, c.toInt? with
     | some a, some b, some c =>
       let st' : St := { L := ⟨a, b, c * 1000000⟩, live := true }
-      (st', s!"ok {showState st'.s}")
+      (st', "ok \x01")
     | _, _, _ => (st, "bad-op")
   | ["clk", n] =>
     if !st.live then (st, "bad-op") else
@@ -72,7 +93,7 @@ def step (st : St) : List String → St × String
     | some tp, some k =>
       let r := scheduleAt st.L st.s st.clk tp
       let st' := { st with s := r.1, kinds := (r.2, k) :: st.kinds }
-      (st', s!"{r.2} {showState r.1}")
+      (st', s!"{r.2} \x01")
     | _, _ => (st, "bad-op")
   | ["per", iv, k] =>
     if !st.live then (st, "bad-op") else
@@ -80,19 +101,19 @@ def step (st : St) : List String → St × String
     | some iv, some k =>
       let r := schedulePeriodic st.L st.s st.clk iv
       let st' := { st with s := r.1, kinds := (r.2, k) :: st.kinds }
-      (st', s!"{r.2} {showState r.1}")
+      (st', s!"{r.2} \x01")
     | _, _ => (st, "bad-op")
   | ["cancel", i] =>
     if !st.live then (st, "bad-op") else
     match i.toNat? with
-    | some i => let r := cancel st.s i; ({ st with s := r.1 }, s!"{bit r.2} {showState r.1}")
+    | some i => let r := cancel st.s i; ({ st with s := r.1 }, s!"{bit r.2} \x01")
     | none => (st, "bad-op")
   | ["wake"] =>
     if !st.live then (st, "bad-op") else
     if st.s.inflight.isSome then (st, "busy") else
     let c := collect st.s st.clk
     let r := runHandlers st (c.2.1.length + 1) c.1 []
-    ({ st with s := r.1 }, s!"ev={commaSep r.2} {showState r.1}")
+    ({ st with s := r.1 }, s!"ev={commaSep r.2} \x01")
   | ["release"] =>
     if !st.live then (st, "bad-op") else
     match st.s.inflight with
@@ -100,9 +121,31 @@ def step (st : St) : List String → St × String
     | some h =>
       let s1 := hend st.s
       let r := runHandlers st (s1.ready.length + 1) s1 [s!"e{h.id}"]
-      ({ st with s := r.1 }, s!"ev={commaSep r.2} {showState r.1}")
+      ({ st with s := r.1 }, s!"ev={commaSep r.2} \x01")
   | ["inflight"] => if !st.live then (st, "bad-op") else (st, toString (liveCount st.s))
+  | ["drain", ms] =>
+    if !st.live then (st, "bad-op") else
+    match ms.toNat? with
+    | some ms =>
+      if ms = 0 || ms > 5000 then (st, "bad-op")
+      else if st.dact then (st, "d=busy \x01")
+      else
+        let g := drainGate st.s
+        if !g.2 then ({ st with s := g.1 }, "d=refused \x01")
+        else
+          let s2 := drainSweep g.1 st.clk (ms * 1000000)
+          if drainPred s2 then ({ st with s := (drainDone s2).1 }, "d=ok \x01")
+          else ({ st with s := s2, dact := true, ddl := st.clk + ms * 1000000, dres := none }, "d=wait \x01")
+    | none => (st, "bad-op")
+  | ["dwait"] =>
+    if !st.live then (st, "bad-op") else
+    if !st.dact then (st, "d=none \x01")
+    else match st.dres with
+      | some r => ({ st with dact := false, dres := none }, s!"d={r} \x01")
+      | none => (st, "d=blocked \x01")
   | _ => (st, "bad-op")
+
+def step (st : St) (toks : List String) : St × String := finish (step0 st toks)
 
 def main : IO Unit := runLines ({} : St) step
 
